@@ -13,6 +13,7 @@ mod rewrite;
 mod rng;
 mod sut;
 mod worldp;
+mod xmlcheck;
 
 use std::path::PathBuf;
 
@@ -220,6 +221,7 @@ fn main() {
         "C06" => dispatch(&props::c06::C06, &a),
         "C10" => dispatch(&props::c10::C10, &a),
         "C16" => dispatch(&props::c16::C16, &a),
+        "C17" => dispatch(&props::c17::C17, &a),
         other => harness_error(&format!("property {} has no check in this simulator", other)),
     };
     std::process::exit(code);
